@@ -194,7 +194,7 @@ package hotspot
 //@ spec func statReusable(a, b) = a.Resource == b.Resource && a.ControlBehavior == b.ControlBehavior && a.ParamsMaxCapacity == b.ParamsMaxCapacity && a.DurationInSec == b.DurationInSec && a.MetricType == b.MetricType
 
 //@ func (r *Rule) Equals(newRule) res
-//@   props C14
+//@   props C14, C13
 //@   requires r != nil && newRule != nil
 //@   ensures[def] res <==> eqRule(r, newRule)
 //@   ensures[a-rule-without-specific-items-equals-its-reloaded-copy] len(r.SpecificItems) == 0 && len(newRule.SpecificItems) == 0 && r.Resource == newRule.Resource && r.MetricType == newRule.MetricType && r.ControlBehavior == newRule.ControlBehavior && r.ParamsMaxCapacity == newRule.ParamsMaxCapacity && r.ParamIndex == newRule.ParamIndex && r.ParamKey == newRule.ParamKey && r.Threshold == newRule.Threshold && r.DurationInSec == newRule.DurationInSec && r.BurstCount == newRule.BurstCount && r.MaxQueueingTimeMs == newRule.MaxQueueingTimeMs && (r.ControlBehavior == Reject || r.ControlBehavior == Throttling) ==> res
@@ -208,7 +208,7 @@ package hotspot
 
 // equalIdx is the first old controller whose rule equals r (else -1); reuseStatIdx the first statistic-compatible one before it (else -1)
 //@ func calculateReuseIndexFor(r, oldResTcs) (equalIdx, reuseStatIdx)
-//@   props C14
+//@   props C14, C13
 //@   requires r != nil && (forall j Int :: 0 <= j && j < len(oldResTcs) ==> oldResTcs[j] != nil && oldResTcs[j].BoundRule() != nil)
 //@   let n = len(oldResTcs)
 //@   ensures[ranges] 0 - 1 <= equalIdx && equalIdx < n && 0 - 1 <= reuseStatIdx && reuseStatIdx < n
